@@ -350,3 +350,119 @@ Definition sid := (N * N)%type.
 Definition sid0 : sid := (0%N, 0%N).
 (* DiskIDsBlock.getMinID: the last ID of the block (IDs are sorted descending) -> registry ext words *)
 Definition min_ids (blocks : list (list sid)) : list sid := map (fun b => last b sid0) blocks.
+
+(* ------------------------------------------------------------------ docs files and the sorted-docs rewrite *)
+(* frac/active_sealer.go: writeSortedDocs / writeDocBlocksInOrder / docBlocksWriter; seq/doc_pos.go;
+   disk/docs_reader.go: extractDocsFromBlockFunc. A block payload is the sequence of its documents, each
+   stored as [len uint32][bytes]; the little-endian length bytes and the compression are outside the
+   model: a file is the list of its blocks (compressed length on disk, payload). *)
+Definition doc := list N.
+Definition payload := list doc.
+Definition dfile := list (N * payload).
+
+Definition doc_size (d : doc) : N := (4 + N.of_nat (length d))%N.
+
+(* the document that starts at byte offset [off] of the payload *)
+Fixpoint doc_at (p : payload) (off : N) : option doc :=
+  match p with
+  | [] => None
+  | d :: r => if (off =? 0)%N then Some d
+              else if (off <? doc_size d)%N then None
+              else doc_at r (off - doc_size d)
+  end.
+
+(* the block that starts at byte offset [off] of the file *)
+Fixpoint read_block (f : dfile) (off : N) : option payload :=
+  match f with
+  | [] => None
+  | (len, p) :: r => if (off =? 0)%N then Some p
+                     else if (off <? len)%N then None
+                     else read_block r (off - len)
+  end.
+
+Definition max_doc_offset : N := 1073741823.   (* 1<<30 - 1 *)
+(* PackDocPos: None = logger.Panic("block offset too big") *)
+Definition pack_pos (idx off : N) : option N :=
+  if (max_doc_offset <? off)%N then None
+  else Some (N.lor (N.shiftl idx 30) off + 1)%N.
+(* DocPos.Unpack: blockIndex is a uint32 *)
+Definition unpack_pos (pos : N) : N * N :=
+  let p := N.pred pos in (N.land (N.shiftr p 30) 4294967295, N.land p max_doc_offset).
+
+Definition sid_eq (a b : sid) : bool := (fst a =? fst b)%N && (snd a =? snd b)%N.
+Fixpoint pos_get (m : list (sid * N)) (id : sid) : option N :=
+  match m with
+  | [] => None
+  | (k, v) :: r => if sid_eq k id then Some v else pos_get r id
+  end.
+
+(* fetch of one ID: positions (map), block offsets, docs file *)
+Definition fetch_doc (pos : list (sid * N)) (offsets : list N) (f : dfile) (id : sid) : option doc :=
+  match pos_get pos id with
+  | None => None
+  | Some p => let '(bi, off) := unpack_pos p in
+              match nth_error offsets (N.to_nat bi) with
+              | None => None
+              | Some bo => match read_block f bo with
+                           | None => None
+                           | Some pl => doc_at pl off
+                           end
+              end
+  end.
+
+(* docBlocksWriter *)
+Record wst := mkW {
+  w_cur : payload;            (* documents of the block being filled, REVERSED *)
+  w_len : N;                  (* len(w.docs) *)
+  w_idx : N;                  (* curBlockIndex *)
+  w_off : N;                  (* currentBlockOffset *)
+  w_offsets : list N;         (* BlockOffsets, REVERSED *)
+  w_file : dfile;             (* blocks written, REVERSED *)
+  w_pos : list (sid * N);     (* Positions: the head shadows older entries of the same ID *)
+  w_nflush : nat
+}.
+Definition w_init : wst := mkW [] 0 0 0 [] [] [] 0.
+
+(* flushBlock; the compressed length of the k-th block comes from [lens] (zstd is outside) *)
+Definition w_flush (lens : list N) (w : wst) : wst :=
+  let len := nth (w_nflush w) lens 1%N in
+  mkW [] 0 (w_idx w + 1) (w_off w + len) (w_off w :: w_offsets w) ((len, rev (w_cur w)) :: w_file w)
+      (w_pos w) (S (w_nflush w)).
+
+(* WriteDoc *)
+Definition w_write (bsz : N) (lens : list N) (w : wst) (id : sid) (d : doc) : option wst :=
+  match pack_pos (w_idx w) (w_len w) with
+  | None => None
+  | Some p =>
+      let w1 := mkW (d :: w_cur w) (w_len w + doc_size d) (w_idx w) (w_off w) (w_offsets w) (w_file w)
+                    ((id, p) :: w_pos w) (w_nflush w) in
+      Some (if (bsz <? w_len w1)%N then w_flush lens w1 else w1)
+  end.
+
+(* writeDocBlocksInOrder: consecutive duplicates are written once (prevID starts as the zero ID);
+   Panic = position not found / read error / offset too big *)
+Fixpoint w_loop (bsz : N) (lens : list N) (pa : list (sid * N)) (oa : list N) (fa : dfile)
+         (ids : list sid) (prev : sid) (w : wst) : res wst :=
+  match ids with
+  | [] => Ok w
+  | id :: r =>
+      if sid_eq id prev then w_loop bsz lens pa oa fa r prev w
+      else match fetch_doc pa oa fa id with
+           | None => Panic
+           | Some d => match w_write bsz lens w id d with
+                       | None => Panic
+                       | Some w' => w_loop bsz lens pa oa fa r id w'
+                       end
+           end
+  end.
+
+(* writeSortedDocs (blockSize <= 0 means 4 MiB in getDocBlocksWriter: the caller passes the effective
+   size): new positions, new block offsets, new file *)
+Definition write_sorted (bsz : N) (lens : list N) (pa : list (sid * N)) (oa : list N) (fa : dfile)
+           (ids : list sid) : res (list (sid * N) * list N * dfile) :=
+  match w_loop bsz lens pa oa fa ids sid0 w_init with
+  | Ok w => let w' := if (0 <? w_len w)%N then w_flush lens w else w in
+            Ok (w_pos w', rev (w_offsets w'), rev (w_file w'))
+  | Panic => Panic
+  | OutOfFuel => OutOfFuel
+  end.
